@@ -748,7 +748,7 @@ def run_unit(unit, tier, rec):
     for k, v in stats.items():
         rec.count(k, v)
     rec.count('units', 1)
-    rec.count('geometries|%s' % desc[0], 1)
+    rec.count('units_%s' % desc[0], 1)
 
 
 def finalize(rec, tier):
@@ -756,7 +756,8 @@ def finalize(rec, tier):
     need = ['blocks', 'connections_atmosphere', 'connections_vertical', 'connections_horizontal',
             'connections_beside_truncated']
     missing = [k for k in need if not c.get(k)]
-    if missing:
+    if missing and not rec.viol:
+        # (with violations present an empty class is a consequence - e.g. every horizontal connection misnamed)
         raise core.HarnessError('nothing compared for %s' % missing)
     return {'dimensions': {
         'geometry x naming x atmosphere type x block order x permeability angle x blockmap': 'crossed',
